@@ -81,7 +81,7 @@ fn nontrivial(s: &str) -> bool {
 }
 
 pub fn run(c: &Ctx) {
-    c.set_rule("exhaustive: every string over {'/','.','a','b'} up to length 10 (quick) / 11 (thorough), every byte string over {'/','.','a',0xE9,0xFF} up to length 6 / 7 that is not valid UTF-8 (reference applied byte-wise), then seeded random strings <=48 symbols over an adversarial alphabet (multi-byte, '~', '$', ':', NUL, newline). Oracle: independent port of Go path.Clean + idempotence + absoluteness + non-empty. Non-trivial = input containing at least one '..' component and one normal component; distinct by input string.");
+    c.set_rule("exhaustive: every string over {'/','.','a','b'} up to length 10 (quick) / 11 (thorough), every sequence of up to 7/8 components from {.., ., a, ab.., ''} (relative, rooted, with a trailing separator), every byte string over {'/','.','a',0xE9,0xFF} up to length 6 / 7 that is not valid UTF-8 (reference applied byte-wise), then seeded random strings <=48 symbols over an adversarial alphabet (multi-byte, '~', '$', ':', NUL, newline). Oracle: independent port of Go path.Clean + idempotence + absoluteness + non-empty. Non-trivial = input containing at least one '..' component and one normal component; distinct by input string.");
     c.assume("ref_clean is a faithful port of Go's path.Clean (checked against Go's own cleantests table in harness unit tests)");
     let max_len = c.tier.pick(10, 11);
     let n = count_upto(4, max_len);
@@ -101,6 +101,37 @@ pub fn run(c: &Ctx) {
     });
     c.note("exhaustive_space", format!("all {} strings over {{/ . a b}} up to length {}", n, max_len));
     c.set_exhaustive(true);
+    // component-level enumeration reaches shapes far beyond the character-level bound: every sequence of up to
+    // 7 (quick) / 8 (thorough) components from {.., ., a, ab.., ''}, relative and rooted, with and without a trailing
+    // separator
+    let comps = ["..", ".", "a", "ab..", ""];
+    let maxc = c.tier.pick(7u32, 8);
+    let mut total_c = 0u64;
+    for l in 1..=maxc {
+        total_c += 5u64.pow(l);
+    }
+    par_for(total_c, 4096, |i| {
+        let mut rest = i;
+        let mut l = 1u32;
+        while rest >= 5u64.pow(l) {
+            rest -= 5u64.pow(l);
+            l += 1;
+        }
+        let mut parts = Vec::with_capacity(l as usize);
+        for _ in 0..l {
+            parts.push(comps[(rest % 5) as usize]);
+            rest /= 5;
+        }
+        let joined = parts.join("/");
+        for s in [joined.clone(), format!("/{}", joined), format!("{}/", joined)] {
+            c.eval(1);
+            if nontrivial(&s) {
+                c.nontrivial(fp(&s));
+            }
+            c.class("exhaustive:component-sequences");
+            c.judge("clean", &s, check_clean(&s));
+        }
+    });
     // byte strings that are not valid UTF-8: every sequence over {'/', '.', 'a', 0xE9, 0xFF} up to length 6 / 7
     let balpha: [u8; 5] = [b'/', b'.', b'a', 0xE9, 0xFF];
     let blen = c.tier.pick(6u32, 7);
